@@ -21,13 +21,14 @@ back the same result / exception, but
       poisoned-cache   (stylesheet calls that carry a `cache`) one call sharing that cache whose snippet table has a broken entry
   * every `inside_every`-th call is made from INSIDE a callback of an outer expand() (re-entrancy), and the outer call's own
     output must be the one it has without the inner call;
-  * every `object_every`-th call (when only a dict is passed) goes through the alternative entry `expand(abbr, Config(dict))`.
+  * every `object_every`-th call (when only a dict is passed) goes through the alternative entry `expand(abbr, Config(dict))`;
+  * every 41st call hands over the same arguments in another legal form (vmon/forms.py).
 
 The monitored call is then judged by the property's ordinary oracle: a leak of any of this into a result is a violation of that
 property.  Counters `hostile:*` in the evidence say what was actually driven.  `VERIF_HOSTILE=0` switches the layer off."""
 import os
 
-from . import core, probes
+from . import core, forms, probes
 
 ON = os.environ.get('VERIF_HOSTILE', '1') != '0'
 
@@ -279,6 +280,12 @@ class Hostile:
             self.step()
             if isinstance(cfg, dict) and cfg.get('type') == 'stylesheet' and isinstance(cfg.get('cache'), dict):
                 self.poison(cfg)
+        if self.n % 41 == 0 and isinstance(a[0], str) and not kw:
+            # the same arguments in another legal form (vmon/forms.py): a str subclass that shows something else, tables and sections as Mappings
+            self.ctx.mon('form:abbreviation-and-config')
+            self.last = 'argument-forms'
+            a = (forms.Shown(a[0]),) + ((forms.config_form(cfg, self.n // 41),) if isinstance(cfg, dict) else tuple(a[1:2])) + tuple(a[2:])
+            return fn(*a)
         if self.n % self.object_every == 0 and len(a) == 2 and isinstance(cfg, dict) and not kw:
             self.ctx.mon('hostile:config-object')
             self.last = 'config-object'
